@@ -24,6 +24,11 @@ struct vf_ctrl { int refs; };                      /* control block of a shared_
 #define %(UPL)s__ctor__pointer_enable_if_t_is_lvalue_reference_shared_deleter_value_lr_guarded_std_shared_ptr_vf_payload_shared_deleter vf_upl_ctor
 #define %(UPL)s__op_bool__0(u) ((u)->p != 0)
 #define %(UPL)s__op_deref__0(u) ((u)->p)
+#define %(UPL)s__op_arrow__0(u) ((u)->p)
+#define %(SP)s_gnu_cxx_S_atomic %(SP)s
+#define %(SP)s_gnu_cxx_S_atomic_element_type vf_payload
+#define %(SP)s_gnu_cxx_S_atomic__get__0(s) ((s)->obj)
+#define %(SP)s_gnu_cxx_S_atomic__use_count__0(s) ((long)((s)->cb ? (s)->cb->refs : 0))
 #define %(UPL)s__reset__1 vf_upl_reset
 #define %(UPL)s__dtor(u) vf_upl_reset(u, 0)
 #define %(UPT)s__ctor__pointer(u, x) ((u)->p = (x))
@@ -258,12 +263,12 @@ FN = {
         frees=['self->vf_base.p']),
     r'cow_guarded::deleter::ctor_move': dict(
         props='C04',
-        setup='struct vf_mutex wm; vf_unnamed1_->m_lock.m = &wm; wm.excl_me = vf_unnamed1_->m_lock.owns; vf_COW = 0;',
-        requires=['self != vf_unnamed1_ && !vf_exc'],
-        ensures=[('C04', 'self->m_lock.owns == __CPROVER_old(vf_unnamed1_->m_lock.owns) && self->m_lock.m == __CPROVER_old(vf_unnamed1_->m_lock.m) && !vf_unnamed1_->m_lock.owns && self->m_guarded == vf_unnamed1_->m_guarded && '
-                         'self->m_cancelled == vf_unnamed1_->m_cancelled && vf_n_mutex_ops == __CPROVER_old(vf_n_mutex_ops) && !vf_exc',
+        setup='struct vf_mutex wm; $ARG1->m_lock.m = &wm; wm.excl_me = $ARG1->m_lock.owns; vf_COW = 0;',
+        requires=['self != $ARG1 && !vf_exc'],
+        ensures=[('C04', 'self->m_lock.owns == __CPROVER_old($ARG1->m_lock.owns) && self->m_lock.m == __CPROVER_old($ARG1->m_lock.m) && !$ARG1->m_lock.owns && self->m_guarded == $ARG1->m_guarded && '
+                         'self->m_cancelled == $ARG1->m_cancelled && vf_n_mutex_ops == __CPROVER_old(vf_n_mutex_ops) && !vf_exc',
                   'moving a write handle transfers the writer lock and the commit duty (no double unlock: the source owns nothing)')],
-        assigns='*self, *vf_unnamed1_'),
+        assigns='*self, *$ARG1'),
     # ---- reader side
     r'cow_guarded::lock_shared': dict(
         props='C04 C14', setup=COW_SETUP, inline_callees=True, loop_free=True,
